@@ -139,7 +139,10 @@ def build (nk np : Nat) (rows : List Row) (extrapolate : Bool) (yearAt : Option 
     (rows.map (·.keys)).eraseDups.forM fun k => checkDataComplete (groupRows rows k) np
   pure { nk, np, rows, extrapolate, yearAt }
 
-/-- one requested simulant: index label, key attributes, parameter attributes -/
+/-- one requested simulant: index label, key attributes, parameter attributes. The request is a list of
+labels with the attributes the state table holds for them; whether a simulant is tracked is NOT an
+input: the tables read the population through views that include the `tracked` column (views that do
+not filter), so untracked simulants in the request are looked up like everybody else. -/
 structure Req where
   label : Nat
   keys  : List String
